@@ -2,6 +2,7 @@
 #![allow(clippy::type_complexity)]
 
 pub mod errs;
+pub mod fam;
 pub mod obs;
 pub mod prims;
 pub mod refsem;
